@@ -1,5 +1,6 @@
 import QmcProofs.LawSlot
 import QmcProofs.KernelInvariance
+import QmcProofs.Common
 
 /-!
 # Law of the whole Metropolis sweep = `sweepKM`; the executable model's idealised law is invariant
@@ -54,5 +55,418 @@ theorem metropolisSweep_refines (H : Ham) (β : Rat) (cutoff : Nat) (c : Config)
     metropolisSweep H β cutoff c rs = (metropolisSweepT H β cutoff c).run rs := by
   unfold metropolisSweep metropolisSweepT
   rw [sweep_refines _ _ (metropolisSlot_refines H β cutoff), PT.run_map]
+
+/-! ### leaves of a slot tree -/
+
+/-- tree-level counterpart of `SlotOK` + `StateOK`: every leaf of a slot visit hands on the rolling
+state, leaves a slot with the same effect on the rolling state, and keeps the count in step -/
+def SlotLeafOK (f : Option Op → List Bool → Nat → PT SlotOut) : Prop :=
+  ∀ s st n, PT.All (fun r : SlotOut => r.state = rollState st [s] ∧
+    (∀ st', rollState st' [r.slot] = rollState st' [s]) ∧
+    ((s.isSome → 1 ≤ n) → r.n + cnt s = n + cnt r.slot)) (f s st n)
+
+theorem metropolisSlotT_leafOK (H : Ham) (β : Rat) (L : Nat) : SlotLeafOK (metropolisSlotT H β L) := by
+  intro s st n
+  unfold metropolisSlotT
+  cases s with
+  | none =>
+    refine PT.All_pick (fun b _ => ?_)
+    unfold metropolisInsertT
+    simp only
+    split
+    · exact PT.All_panic _
+    · refine PT.All_clipped ?_ ?_
+      · exact ⟨rfl, fun st' => by simp [rollState, Op.diagonal], fun _ => by simp [cnt]⟩
+      · exact ⟨rfl, fun st' => rfl, fun _ => rfl⟩
+  | some op =>
+    simp only
+    split
+    · rename_i hd
+      split
+      · exact PT.All_panic _
+      · refine PT.All_clipped ?_ ?_
+        · refine ⟨by simp [rollState, hd], fun st' => by simp [rollState, hd], fun h => ?_⟩
+          have := h rfl
+          simp [cnt]; omega
+        · exact ⟨by simp [rollState, hd], fun st' => rfl, fun _ => rfl⟩
+    · rename_i hd
+      exact ⟨by simp [rollState, hd], fun st' => rfl, fun _ => rfl⟩
+
+/-- every leaf of the sweep carries the rolling state of the original slots -/
+theorem sweepAuxT_state (f : Option Op → List Bool → Nat → PT SlotOut) (hf : SlotLeafOK f) :
+    ∀ (sl : Slots) (st : List Bool) (n : Nat),
+      PT.All (fun x : Slots × List Bool × Nat => x.2.1 = rollState st sl) (sweepAuxT f sl st n)
+  | [], _, _ => rfl
+  | s :: t, st, n => by
+    unfold sweepAuxT
+    refine PT.All_bind _ (hf s st n) (fun r hr => ?_)
+    refine PT.All_map _ (sweepAuxT_state f hf t r.state r.n) (fun x hx => ?_)
+    simp only
+    rw [hx, hr.1, ← rollState_cons]
+
+
+/-! ### the sweep as a sequence of visits of the configuration produced so far -/
+
+/-- the visit of slot `p` of the configuration `c`: slot content, `stateAt c p`, current count -/
+def slotCfgT (f : Option Op → List Bool → Nat → PT SlotOut) (p : Nat) (c : Config) : PT Config :=
+  PT.map (fun r : SlotOut => setSlot c p r.slot) (f (c.slots.getD p none) (stateAt c p) (countOps c.slots))
+
+/-- visits of the slots `p, p+1, …, p+k−1`, each on the configuration the previous ones produced -/
+def cfgSweepT (f : Option Op → List Bool → Nat → PT SlotOut) : Nat → Nat → Config → PT Config
+  | _, 0, c => PT.ret c
+  | p, k + 1, c => PT.bind (slotCfgT f p c) (cfgSweepT f (p + 1) k)
+
+theorem stateAt_mk_append (st0 : List Bool) (pre rest : Slots) :
+    stateAt { state := st0, slots := pre ++ rest } pre.length = rollState st0 pre := by
+  unfold stateAt
+  simp
+
+theorem setSlot_mk_append (st0 : List Bool) (pre : Slots) (s x : Option Op) (t : Slots) :
+    setSlot { state := st0, slots := pre ++ s :: t } pre.length x =
+      { state := st0, slots := (pre ++ [x]) ++ t } := by
+  simp [setSlot]
+
+/-- **the model's sweep visits each slot with `stateAt` and the count of the configuration produced so
+far** (tree level; the script-level statements are `sweep_uses_stateAt`, `sweep_uses_current_n`) -/
+theorem law_sweepAuxT_eq_cfgSweepT (f : Option Op → List Bool → Nat → PT SlotOut) (hf : SlotLeafOK f)
+    (st0 : List Bool) (c' : Config) : ∀ (rest pre : Slots),
+    PT.law (PT.map (fun x : Slots × List Bool × Nat => ({ state := st0, slots := pre ++ x.1 } : Config))
+      (sweepAuxT f rest (rollState st0 pre) (countOps (pre ++ rest)))) c' =
+    PT.law (cfgSweepT f pre.length rest.length { state := st0, slots := pre ++ rest }) c'
+  | [], pre => by
+    simp [sweepAuxT, cfgSweepT]
+  | s :: t, pre => by
+    simp only [sweepAuxT, cfgSweepT, List.length_cons, slotCfgT]
+    rw [PT.map_bind, PT.bind_map]
+    have hget : (pre ++ s :: t).getD pre.length none = s := by simp
+    simp only [hget, stateAt_mk_append]
+    refine PT.law_bind_congr c' _ (hf s (rollState st0 pre) (countOps (pre ++ s :: t))) (fun r hr => ?_)
+    rw [PT.map_map, setSlot_mk_append]
+    have ih := law_sweepAuxT_eq_cfgSweepT f hf st0 c' t (pre ++ [r.slot])
+    have h1 : rollState st0 (pre ++ [r.slot]) = r.state := by
+      rw [rollState_append, hr.2.1, hr.1]
+    have h2 : countOps ((pre ++ [r.slot]) ++ t) = r.n := by
+      have := hr.2.2 (by
+        intro hs
+        rw [countOps_append, countOps_cons]
+        unfold cnt; rw [if_pos hs]; omega)
+      simp only [countOps_append, countOps_cons, countOps_nil] at this ⊢
+      omega
+    rw [h1, h2] at ih
+    simp only [List.length_append, List.length_cons, List.length_nil, List.append_assoc,
+      List.cons_append, List.nil_append] at ih
+    simpa using ih
+
+
+/-- the law of consecutive visits is the composition of the laws of the visits -/
+theorem lawK_cfgSweepT (f : Option Op → List Bool → Nat → PT SlotOut) (S : Finset Config) :
+    ∀ (k p : Nat), (∀ q, p ≤ q → q < p + k → ∀ a ∈ S, PT.All (fun b => b ∈ S) (slotCfgT f q a)) →
+      lawK S (cfgSweepT f p k) = compList ((List.range' p k).map fun q => lawK S (slotCfgT f q))
+  | 0, p, _ => by
+    simp only [List.range'_zero, List.map_nil, compList]
+    exact lawK_ret S
+  | k + 1, p, h => by
+    have e : cfgSweepT f p (k + 1) = fun c => PT.bind (slotCfgT f p c) (cfgSweepT f (p + 1) k) := by
+      funext c; rfl
+    rw [e, lawK_bind S _ _ (h p (Nat.le_refl p) (by omega)),
+      lawK_cfgSweepT f S k (p + 1) (fun q h1 h2 => h q (by omega) (by omega))]
+    simp only [List.range'_succ, List.map_cons, compList]
+
+
+/-! ### legality -/
+
+/-- the operator at slot `p`, if tagged diagonal, is the canonical operator of a bond of `H` -/
+def OpLegalAt (H : Ham) (c : Config) (p : Nat) : Prop :=
+  match c.slots.getD p none with
+  | some o => o.tagDiag = true → (o.bond < H.nbonds ∧ o = canonOp H c p o.bond)
+  | none => True
+
+instance (H : Ham) (c : Config) (p : Nat) : Decidable (OpLegalAt H c p) := by
+  unfold OpLegalAt; split <;> infer_instance
+
+/-- **legality for the diagonal update** (decidable): bond variables in range; diagonal-tagged
+operators canonical at the rolling state of their slot; the rolling state closes -/
+def DiagLegal (H : Ham) (c : Config) : Prop :=
+  (∀ b, b < H.nbonds → ∀ v ∈ H.vars b, v < c.state.length) ∧
+  (∀ p, p < c.slots.length → OpLegalAt H c p) ∧
+  rollState c.state c.slots = c.state
+
+instance (H : Ham) (c : Config) : Decidable (DiagLegal H c) := by
+  unfold DiagLegal; infer_instance
+
+theorem DiagLegal.op {H : Ham} {c : Config} (h : DiagLegal H c) {p : Nat} {o : Op}
+    (hs : c.slots[p]? = some (some o)) (hd : o.tagDiag = true) :
+    o.bond < H.nbonds ∧ o = canonOp H c p o.bond := by
+  have hp := lt_of_getElem? hs
+  have := h.2.1 p hp
+  unfold OpLegalAt at this
+  have hg : c.slots.getD p none = some o := by
+    rw [List.getD_eq_getElem?_getD, hs]; rfl
+  rw [hg] at this
+  exact this hd
+
+theorem rollState_length : ∀ (sl : Slots) (st : List Bool), (rollState st sl).length = st.length
+  | [], _ => rfl
+  | none :: t, st => by simp only [rollState]; exact rollState_length t st
+  | some o :: t, st => by
+    simp only [rollState]
+    split
+    · exact rollState_length t st
+    · rw [rollState_length t, writeVars_length]
+
+theorem varsInRange_of {st : List Bool} {vars : List Nat} (h : ∀ v ∈ vars, v < st.length) :
+    varsInRange st vars = true := by
+  unfold varsInRange
+  rw [List.all_eq_true]
+  intro v hv
+  exact decide_eq_true (h v hv)
+
+theorem DiagLegal.slotLegal {H : Ham} {c : Config} (h : DiagLegal H c) (p : Nat) : SlotLegal H c p := by
+  refine ⟨fun b hb => varsInRange_of (fun v hv => ?_), fun o hs hd => h.op hs hd⟩
+  unfold stateAt
+  rw [rollState_length]
+  exact h.1 b hb v hv
+
+/-! ### the visits of the Metropolis sweep stay in a set closed under the proposals -/
+
+theorem metropolisSlotT_slots (H : Ham) (β : Rat) (L : Nat) (s : Option Op) (st : List Bool) (n : Nat) :
+    PT.All (fun r : SlotOut => r.slot = s ∨
+      (s = none ∧ ∃ b, b < H.nbonds ∧
+        r.slot = some (Op.diagonal (H.vars b) b (readVars st (H.vars b)) (H.const b))) ∨
+      (∃ o, s = some o ∧ o.tagDiag = true ∧ r.slot = none)) (metropolisSlotT H β L s st n) := by
+  unfold metropolisSlotT
+  cases s with
+  | none =>
+    refine PT.All_pick (fun b hb => ?_)
+    unfold metropolisInsertT
+    simp only
+    split
+    · exact PT.All_panic _
+    · exact PT.All_clipped (Or.inr (Or.inl ⟨trivial, b, hb, rfl⟩)) (Or.inl rfl)
+  | some op =>
+    simp only
+    split
+    · rename_i hd
+      split
+      · exact PT.All_panic _
+      · exact PT.All_clipped (Or.inr (Or.inr ⟨op, rfl, hd, rfl⟩)) (Or.inl rfl)
+    · exact Or.inl rfl
+
+theorem getElem?_getD {c : Config} {p : Nat} (hp : p < c.slots.length) :
+    c.slots[p]? = some (c.slots.getD p none) := by
+  rw [List.getD_eq_getElem?_getD, List.getElem?_eq_getElem hp]; rfl
+
+theorem slotCfgT_metropolis_closed (H : Ham) (β : Rat) (L : Nat) (S : Finset Config)
+    (hcl : ∀ p b, b < H.nbonds → ∀ c ∈ S, slotFlip H p b c ∈ S) (a : Config) (ha : a ∈ S)
+    (hleg : DiagLegal H a) (q : Nat) (hq : q < a.slots.length) :
+    PT.All (fun b => b ∈ S) (slotCfgT (metropolisSlotT H β L) q a) := by
+  unfold slotCfgT
+  have hs := getElem?_getD hq
+  refine PT.All_map _ (metropolisSlotT_slots H β L _ _ _) (fun r hr => ?_)
+  rcases hr with h | ⟨hn, b, hb, h⟩ | ⟨o, ho, hd, h⟩
+  · rw [h, setSlot_self hs]; exact ha
+  · rw [hn] at hs
+    have := hcl q b hb a ha
+    rw [slotFlip_empty hs] at this
+    rw [h]; exact this
+  · rw [ho] at hs
+    obtain ⟨hb, hcanon⟩ := hleg.op hs hd
+    have := hcl q o.bond hb a ha
+    rw [slotFlip_canon (by rw [hs, ← hcanon])] at this
+    rw [h]; exact this
+
+/-! ### law of the Metropolis sweep -/
+
+/-- with the cutoff equal to the number of slots, the sweep tree is the plain fold over all slots -/
+theorem metropolisSweepT_eq (H : Ham) (β : Rat) (c : Config) :
+    metropolisSweepT H β c.slots.length c =
+      PT.map (fun x : Slots × List Bool × Nat => ({ state := x.2.1, slots := x.1 } : Config))
+        (sweepAuxT (metropolisSlotT H β c.slots.length) c.slots c.state (countOps c.slots)) := by
+  unfold metropolisSweepT sweepT padSlots
+  simp [PT.map_map]
+
+/-- **law of the Metropolis sweep = `sweepKM`**, on every finite set `S` of legal configurations with
+`L` slots that the diagonal proposals do not leave -/
+theorem law_metropolisSweep (H : Ham) (β : Rat) (hβ : 0 ≤ β) (hw : ∀ b i, 0 ≤ H.w b i i)
+    (hNb : 0 < H.nbonds) (S : Finset Config) (L : Nat)
+    (hcl : ∀ p b, b < H.nbonds → ∀ c ∈ S, slotFlip H p b c ∈ S)
+    (hleg : ∀ c ∈ S, DiagLegal H c ∧ c.slots.length = L) :
+    lawK S (metropolisSweepT H β L) = sweepKM H β S L := by
+  have h1 : lawK S (metropolisSweepT H β L) = lawK S (cfgSweepT (metropolisSlotT H β L) 0 L) := by
+    funext a b
+    unfold lawK
+    obtain ⟨hl, hL⟩ := hleg a.1 a.2
+    have e := metropolisSweepT_eq H β a.1
+    rw [hL] at e
+    rw [e]
+    have h2 := law_sweepAuxT_eq_cfgSweepT _ (metropolisSlotT_leafOK H β L) a.1.state b.1 a.1.slots []
+    simp only [List.nil_append, rollState, List.length_nil, hL] at h2
+    rw [← h2]
+    refine PT.map_congr_All (fun x hx => ?_) b.1 _ (sweepAuxT_state _ (metropolisSlotT_leafOK H β L) _ _ _)
+    have hx' : x.2.1 = rollState a.1.state a.1.slots := hx
+    show ({ state := x.2.1, slots := x.1 } : Config) = _
+    rw [hx', hl.2.2]
+  rw [h1, lawK_cfgSweepT _ S L 0 (fun q _ hq a ha => by
+    obtain ⟨hl, hL⟩ := hleg a ha
+    exact slotCfgT_metropolis_closed H β L S hcl a ha hl q (by omega))]
+  unfold sweepKM
+  rw [List.range_eq_range']
+  congr 1
+  refine List.map_congr_left (fun q hq => ?_)
+  have hq' : q < L := by
+    have := List.mem_range'_1.mp hq
+    omega
+  funext a b
+  obtain ⟨hl, hL⟩ := hleg a.1 a.2
+  unfold lawK slotCfgT restr
+  have := law_metropolisSlot H β hβ hw hNb a.1 q _ (getElem?_getD (by omega)) (hl.slotLegal q) b.1
+  rw [hL] at this
+  exact this
+
+
+/-! ### the space of legal configurations -/
+
+/-- a slot content that does not act on the rolling state: empty or tagged diagonal -/
+def Neutral (x : Option Op) : Prop := ∀ st : List Bool, rollState st [x] = st
+
+theorem neutral_none : Neutral none := fun _ => rfl
+
+theorem neutral_diag {o : Op} (h : o.tagDiag = true) : Neutral (some o) := by
+  intro st; simp [rollState, h]
+
+theorem rollState_set_neutral {x y : Option Op} (hx : Neutral x) (hy : Neutral y) :
+    ∀ (l : Slots) (p : Nat) (st : List Bool), l[p]? = some y → rollState st (l.set p x) = rollState st l
+  | [], _, _, h => by simp at h
+  | z :: t, 0, st, h => by
+    simp only [List.getElem?_cons_zero, Option.some.injEq] at h
+    have hz : Neutral z := by rw [h]; exact hy
+    simp only [List.set_cons_zero]
+    rw [rollState_cons st x t, hx st, rollState_cons st z t, hz st]
+  | z :: t, p + 1, st, h => by
+    simp only [List.getElem?_cons_succ] at h
+    simp only [List.set_cons_succ]
+    rw [rollState_cons st z (t.set p x), rollState_set_neutral hx hy t p _ h, ← rollState_cons]
+
+theorem stateAt_setSlot_neutral {c : Config} {p : Nat} {x y : Option Op} (hs : c.slots[p]? = some y)
+    (hx : Neutral x) (hy : Neutral y) (q : Nat) : stateAt (setSlot c p x) q = stateAt c q := by
+  unfold stateAt
+  simp only [setSlot_state, setSlot_slots, List.take_set]
+  by_cases hpq : p < q
+  · exact rollState_set_neutral hx hy _ p _ (by rw [List.getElem?_take_of_lt hpq]; exact hs)
+  · rw [List.set_eq_of_length_le (by rw [List.length_take]; omega)]
+
+theorem opLegalAt_iff (H : Ham) (c : Config) (p : Nat) :
+    OpLegalAt H c p ↔ ∀ o, c.slots.getD p none = some o → o.tagDiag = true →
+      (o.bond < H.nbonds ∧ o = canonOp H c p o.bond) := by
+  unfold OpLegalAt
+  generalize c.slots.getD p none = g
+  cases g with
+  | none => simp
+  | some o => simp
+
+/-- replacing a neutral slot content by a neutral one that is legal keeps the configuration legal -/
+theorem diagLegal_setSlot {H : Ham} {c : Config} (h : DiagLegal H c) {p : Nat} {x y : Option Op}
+    (hs : c.slots[p]? = some y) (hx : Neutral x) (hy : Neutral y)
+    (hxl : ∀ o, x = some o → o.tagDiag = true → o.bond < H.nbonds ∧ o = canonOp H c p o.bond) :
+    DiagLegal H (setSlot c p x) := by
+  have hp := lt_of_getElem? hs
+  refine ⟨h.1, fun q hq => ?_, ?_⟩
+  · rw [opLegalAt_iff]
+    intro o ho hd
+    have hcan : ∀ b, canonOp H (setSlot c p x) q b = canonOp H c q b := by
+      intro b; unfold canonOp; rw [stateAt_setSlot_neutral hs hx hy]
+    rw [hcan]
+    by_cases hqp : q = p
+    · subst hqp
+      have : (setSlot c q x).slots.getD q none = x := by
+        rw [List.getD_eq_getElem?_getD, getElem?_setSlot hp]; rfl
+      rw [this] at ho
+      exact hxl o ho hd
+    · have : (setSlot c p x).slots.getD q none = c.slots.getD q none := by
+        simp only [List.getD_eq_getElem?_getD, setSlot_slots, List.getElem?_set_ne (Ne.symm hqp)]
+      rw [this] at ho
+      have hq' : q < c.slots.length := by simpa using hq
+      exact (opLegalAt_iff H c q).mp (h.2.1 q hq') o ho hd
+  · have := stateAt_setSlot_neutral hs hx hy c.slots.length
+    unfold stateAt at this
+    simp only [setSlot_state, setSlot_slots] at this ⊢
+    rw [List.take_of_length_le (by simp), List.take_of_length_le (Nat.le_refl _)] at this
+    rw [this]; exact h.2.2
+
+/-- **the diagonal proposals keep a configuration legal** -/
+theorem diagLegal_slotFlip {H : Ham} {c : Config} (h : DiagLegal H c) (p b : Nat) (hb : b < H.nbonds) :
+    DiagLegal H (slotFlip H p b c) := by
+  unfold slotFlip
+  split
+  · rename_i hs
+    exact diagLegal_setSlot h hs (neutral_diag rfl) neutral_none (fun o ho _ => by cases ho; exact ⟨hb, rfl⟩)
+  · rename_i o hs
+    split
+    · rename_i ho
+      exact diagLegal_setSlot h hs neutral_none (neutral_diag (by rw [ho]; rfl)) (fun o' ho' => by cases ho')
+    · exact h
+  · exact h
+
+/-- **the legal configurations** of the configuration space `cfgSpace H N L` -/
+noncomputable def legalSpace (H : Ham) (N L : Nat) : Finset Config :=
+  (cfgSpace H N L).filter (fun c => DiagLegal H c)
+
+theorem mem_legalSpace {H : Ham} {N L : Nat} {c : Config} :
+    c ∈ legalSpace H N L ↔ c ∈ cfgSpace H N L ∧ DiagLegal H c := by
+  unfold legalSpace; rw [Finset.mem_filter]
+
+theorem legalSpace_slotFlip (H : Ham) (N L : Nat) :
+    ∀ p b, b < H.nbonds → ∀ c ∈ legalSpace H N L, slotFlip H p b c ∈ legalSpace H N L := by
+  intro p b hb c hc
+  rw [mem_legalSpace] at hc ⊢
+  exact ⟨cfgSpace_slotFlip H N L p b hb c hc.1, diagLegal_slotFlip hc.2 p b hb⟩
+
+theorem legalSpace_legal (H : Ham) (N L : Nat) :
+    ∀ c ∈ legalSpace H N L, DiagLegal H c ∧ c.slots.length = L := by
+  intro c hc
+  rw [mem_legalSpace] at hc
+  exact ⟨hc.2, (mem_cfgSpace.mp hc.1).2.1⟩
+
+/-! ### invariance of the law of the executable sweep -/
+
+/-- the sweep kernel is invariant on every finite set the diagonal proposals do not leave (as
+`Kernel.sweep_invariant`, which asks in addition for closure under the idle toggles) -/
+theorem sweepKM_invariant_of_slotClosed (H : Ham) (β : Rat) (hβ : 0 < β) (hw : ∀ b i, 0 ≤ H.w b i i)
+    (S : Finset Config) (hcl : ∀ p b, b < H.nbonds → ∀ c ∈ S, slotFlip H p b c ∈ S) (L : Nat) :
+    Invariant (sseOn H β S) (sweepKM H β S L) := by
+  refine invariant_compList _ (fun K hK => ?_)
+  obtain ⟨p, -, rfl⟩ := List.mem_map.mp hK
+  exact reversible_invariantOn (slotKM_reversible H β hβ hw p) (slotKM_rowSumOn H β p (hcl p))
+
+theorem sweepKM_rowSum_of_slotClosed (H : Ham) (β : Rat) (S : Finset Config)
+    (hcl : ∀ p b, b < H.nbonds → ∀ c ∈ S, slotFlip H p b c ∈ S) (L : Nat) :
+    RowSum (sweepKM H β S L) := by
+  refine rowSum_compList _ (fun K hK => ?_)
+  obtain ⟨p, -, rfl⟩ := List.mem_map.mp hK
+  exact restr_rowSum (slotKM_rowSumOn H β p (hcl p))
+
+/-- **the idealised law of the executable Metropolis sweep leaves the SSE weight invariant**, on every
+finite set of legal configurations with `L` slots closed under the diagonal proposals -/
+theorem metropolisSweep_law_invariant_on (H : Ham) (β : Rat) (hβ : 0 < β) (hw : ∀ b i, 0 ≤ H.w b i i)
+    (hNb : 0 < H.nbonds) (S : Finset Config) (L : Nat)
+    (hcl : ∀ p b, b < H.nbonds → ∀ c ∈ S, slotFlip H p b c ∈ S)
+    (hleg : ∀ c ∈ S, DiagLegal H c ∧ c.slots.length = L) :
+    Invariant (sseOn H β S) (lawK S (metropolisSweepT H β L)) := by
+  rw [law_metropolisSweep H β (le_of_lt hβ) hw hNb S L hcl hleg]
+  exact sweepKM_invariant_of_slotClosed H β hβ hw S hcl L
+
+/-- … in particular on the space of all legal configurations with `N` variables and `L` slots -/
+theorem metropolisSweep_law_invariant (H : Ham) (β : Rat) (hβ : 0 < β) (hw : ∀ b i, 0 ≤ H.w b i i)
+    (hNb : 0 < H.nbonds) (N L : Nat) :
+    Invariant (sseOn H β (legalSpace H N L)) (lawK (legalSpace H N L) (metropolisSweepT H β L)) :=
+  metropolisSweep_law_invariant_on H β hβ hw hNb _ L (legalSpace_slotFlip H N L) (legalSpace_legal H N L)
+
+/-- from a legal configuration the idealised law of the sweep has total mass 1 on the legal
+configurations: no mass is lost to a panic -/
+theorem metropolisSweep_law_rowSum (H : Ham) (β : Rat) (hβ : 0 ≤ β) (hw : ∀ b i, 0 ≤ H.w b i i)
+    (hNb : 0 < H.nbonds) (N L : Nat) :
+    RowSum (lawK (legalSpace H N L) (metropolisSweepT H β L)) := by
+  rw [law_metropolisSweep H β hβ hw hNb _ L (legalSpace_slotFlip H N L) (legalSpace_legal H N L)]
+  exact sweepKM_rowSum_of_slotClosed H β _ (legalSpace_slotFlip H N L) L
 
 end Qmc.Law
